@@ -210,7 +210,25 @@ def header_faults(r, raw):
     return out
 
 
+OPT_SHARE = 0.2      # share of the runs that execute in an interpreter started with -O / -OO
+
+
 def worker(seed):
+    """one run; a seeded share of the runs executes in a child interpreter started with -O or -OO (an ambient variable of the
+    simulated process: validation written as `assert` or under `if __debug__:` does not exist there)"""
+    if not core.child_opt_level() and not os.environ.get("VERIF_NO_OPT_CHILD"):
+        ar = core.rng(seed, "ambient")
+        if ar.random() < OPT_SHARE:
+            lvl = ar.choice([1, 1, 2])
+            out = core.in_child_interpreter("checks.c09", "worker", [seed], lvl)
+            out["faults"]["ambient:interpreter -%s" % ("O" * lvl)] = 1
+            if out.get("case"):
+                out["case"]["opt"] = lvl
+            return out
+    return _worker_here(seed)
+
+
+def _worker_here(seed):
     core.use_repo()
     iosim.install()
     _wrap_cm()
@@ -263,7 +281,8 @@ def worker(seed):
             if verdict == "rejected":
                 exc_kinds[detail] = exc_kinds.get(detail, 0) + 1
                 continue
-            sig = f"C09:{verdict}:{region_of(raw, off)}" + (":via-ODEX" if entry == "odex" else (":via-APK-object" if entry == "apk" else ""))
+            sig = f"C09:{verdict}:{region_of(raw, off)}" + (":via-ODEX" if entry == "odex" else (":via-APK-object" if entry == "apk" else "")) \
+                + core.opt_suffix()
             if sig not in problems:
                 problems[sig] = {"msg": f"{name}: byte at offset {off} changed {orig:#04x} -> {val:#04x}: {verdict} ({detail})"
                                         + (" through ODEX(buf)" if entry == "odex" else (" through DEX(APK object)" if entry == "apk" else "")),
@@ -280,7 +299,8 @@ def worker(seed):
         if verdict == "rejected":
             exc_kinds[detail] = exc_kinds.get(detail, 0) + 1
             continue
-        sig = f"C09:{verdict}:header-field:{desc[3] if desc[0] == 'combo' else desc[0]}" + (":via-ODEX" if entry == "odex" else "")
+        sig = f"C09:{verdict}:header-field:{desc[3] if desc[0] == 'combo' else desc[0]}" + (":via-ODEX" if entry == "odex" else "") \
+            + core.opt_suffix()
         if sig not in problems:
             problems[sig] = {"msg": f"{name}: header fault {desc}: {verdict} ({detail})" + (" through ODEX(buf)" if entry == "odex" else ""),
                              "fault": ["header"] + desc + ([{"entry": "odex"}] if entry == "odex" else [])}
@@ -355,27 +375,39 @@ def _sig(raw, fault):
     verdict, detail = check_one(_apply(raw, fault), entry)
     if verdict == "rejected":
         return None, detail
-    tail = ":via-ODEX" if entry == "odex" else (":via-APK-object" if entry == "apk" else "")
+    tail = (":via-ODEX" if entry == "odex" else (":via-APK-object" if entry == "apk" else "")) + core.opt_suffix()
     if fault[0] == "byte":
         return f"C09:{verdict}:{region_of(raw, fault[1])}" + tail, detail
     return f"C09:{verdict}:header-field:{fault[5 - 1] if fault[1] == 'combo' else fault[1]}" + tail, detail
 
 
 def minimise(case, sig):
-    return {"seed": case["seed"], "src": case["src"], "fault": case["by_sig"][sig]}, {"note": "a single-byte / single-field fault is minimal"}
+    return {"seed": case["seed"], "src": case["src"], "fault": case["by_sig"][sig], "opt": case.get("opt", 0)}, \
+        {"note": "a single-byte / single-field fault is minimal"}
+
+
+def _sig_from_source(src, fault):
+    core.use_repo()
+    iosim.install()
+    _wrap_cm()
+    return _sig(_src_bytes(src), fault)
 
 
 def write_replay(case, sig, msg, info):
     if "by_sig" in case:
-        case = {"seed": case["seed"], "src": case["src"], "fault": case["by_sig"][sig]}
+        case = {"seed": case["seed"], "src": case["src"], "fault": case["by_sig"][sig], "opt": case.get("opt", 0)}
     core.use_repo()
     iosim.install()
     _wrap_cm()
     raw = _src_bytes(case["src"])
-    got, detail = core.isolated(_sig, raw, case["fault"])
+    if case.get("opt"):
+        got, detail = core.in_child_interpreter("checks.c09", "_sig_from_source", [case["src"], case["fault"]], case["opt"])
+    else:
+        got, detail = core.isolated(_sig, raw, case["fault"])
     if got != sig:
         return None
-    payload = {"property": PROP, "engine": "iosim", "seed": case["seed"], "config": {}, "source": case["src"],
+    payload = {"property": PROP, "engine": "iosim", "seed": case["seed"], "config": {"python_optimize": case.get("opt", 0)},
+               "source": case["src"],
                "faults": [case["fault"]], "ops": [["DEX(buf)"]], "decisions": [],
                "violation": {"class": sig.split(":")[1], "signature": sig, "message": msg},
                "digest": core.digest_of([sig, detail]), "minimised_from": info}
@@ -402,6 +434,10 @@ def replay(path):
         iosim.install()
         _wrap_cm()
         raw = _src_bytes(rp["source"])
-        got, detail = _sig(raw, rp["faults"][0])
+        opt = (rp.get("config") or {}).get("python_optimize", 0)
+        if opt:
+            got, detail = core.in_child_interpreter("checks.c09", "_sig_from_source", [rp["source"], rp["faults"][0]], opt)
+        else:
+            got, detail = _sig(raw, rp["faults"][0])
         return ({got} if got else set()), core.digest_of([got, detail]), [f"verdict detail: {detail}"]
     return driver.replay_common(__import__("checks.c09", fromlist=["x"]), path, rerun)
